@@ -946,26 +946,78 @@ func run(c *core.Case) {
 			return
 		}
 		doc := document(a, r, k > 0)
-		v, ok := mo.unmarshal(doc)
-		if mo.dead {
-			return
-		}
-		if !ok {
+		raw, rerr := rawModel(doc)
+		if rerr != nil || !sameContent(raw, a) {
+			// the harness's own writer and reader disagree: nothing can be said
+			c.Count("harness_document_does_not_read_back", 1)
 			continue
 		}
-		if !sameContent(extract(v), a) {
-			// a codec matter (C19), not this property's
-			c.Count("unmarshal_content_differs_from_document", 1)
-			continue
+		emptyValue := false
+		for _, f := range raw.Forms {
+			for _, fd := range f.Fields {
+				for _, val := range fd.Vals {
+					if val == "" && fd.Var != "FORM_TYPE" {
+						emptyValue = true
+					}
+				}
+			}
 		}
-		c.Count("values_unmarshalled", 1)
-		hu, alive := mo.hashOf(v, tcase{Hash: mo.hh.String(), Route: "unmarshalled", Arrangement: "every list shuffled", Value: a, Document: doc})
-		if !alive {
-			return
+		// the decode paths: xml.Unmarshal of the peer's bytes and, for a share of
+		// the cases, disco.GetInfo on a session whose peer sends them
+		routes := []string{"unmarshalled"}
+		if r.Intn(12) == 0 {
+			routes = append(routes, "GetInfo")
 		}
-		if hu != hd {
-			mo.violate("caps:unmarshalled", "%s: Hash = %q on the value decoded from %s but %q on the same content built directly", mo.hh, hu, doc, hd)
-			return
+		for _, route := range routes {
+			var v disco.Info
+			var ok bool
+			if route == "GetInfo" {
+				v, ok = mo.viaGetInfo(doc)
+			} else {
+				v, ok = mo.unmarshal(doc)
+			}
+			if mo.dead {
+				return
+			}
+			if !ok {
+				continue
+			}
+			if !sameContent(extract(v), a) {
+				// noted, and judged below by what it does to the verification string
+				c.Count("decoded_content_differs_from_document", 1)
+			}
+			if route == "GetInfo" {
+				c.Count("values_from_GetInfo", 1)
+			} else {
+				c.Count("values_unmarshalled", 1)
+			}
+			if emptyValue {
+				c.Count("decoded_values_with_an_empty_value", 1)
+			}
+			hu, alive := mo.hashOf(v, tcase{Hash: mo.hh.String(), Route: route, Arrangement: "every list shuffled", Value: a, Document: doc})
+			if !alive {
+				return
+			}
+			// the peer's reply against XEP-0115 5.1 computed from the raw document
+			if allTyped {
+				c.Count("reference_comparisons_decoded", 1)
+				if want := refHash(raw, mo.hh.New()); hu != want {
+					cause := "other"
+					if emptyValue {
+						cause = "empty-value"
+					}
+					mo.violate("caps:ref:decoded:"+cause, "%s: Hash = %q on the value obtained by %s from %s, XEP-0115 5.1 on that document gives %q (S = %q); decoded content read back through the accessors: %+v", mo.hh, hu, route, doc, want, refString(raw), extract(v))
+					return
+				}
+			}
+			if hu != hd {
+				cause := "other"
+				if emptyValue {
+					cause = "empty-value"
+				}
+				mo.violate("caps:unmarshalled:"+cause, "%s: Hash = %q on the value obtained by %s from %s but %q on the same content built directly; decoded content read back through the accessors: %+v", mo.hh, hu, route, doc, hd, extract(v))
+				return
+			}
 		}
 	}
 }
@@ -1038,7 +1090,7 @@ func Prop() *core.Prop {
 	req := []string{
 		"values", "values_with_two_or_more_forms", "empty_forms", "forms_without_FORM_TYPE", "forms_with_FORM_TYPE", "multi_valued_fields",
 		"values_with_non_ascii_text", "reference_comparisons", "permutations_identities", "permutations_features", "permutations_forms",
-		"permutations_fields", "permutations_values", "permutations_combined", "values_unmarshalled", "malformed_values", "malformed_values_unmarshalled",
+		"permutations_fields", "permutations_values", "permutations_combined", "values_unmarshalled", "values_from_GetInfo", "decoded_values_with_an_empty_value", "reference_comparisons_decoded", "malformed_values", "malformed_values_unmarshalled",
 		"hash_calls", "appendhash_calls",
 	}
 	for _, h := range hashes() {
